@@ -12,8 +12,8 @@ package security
 //@   loop 1 invariant bounds: 0 - 1 <= rangeindex && len(missing) >= 0 && (missing.arr == 0 || fresh(missing))
 //@   loop 1 invariant none.missing: len(missing) == 0 ==> (forall j int :: 0 <= j && j <= rangeindex ==> (exists k int :: 0 <= k && k < len(actual) && actual[k] == expected[j]))
 //@   loop 1 invariant some.missing: len(missing) > 0 ==> (exists j int :: 0 <= j && j <= rangeindex && (forall k int :: 0 <= k && k < len(actual) ==> actual[k] != expected[j]))
-//@   loop 2 invariant bounds: 0 - 1 <= rangeindex#2 && 0 <= rangeindex && rangeindex < len(expected) && r == expected[rangeindex] && len(missing) >= 0 && (missing.arr == 0 || fresh(missing))
-//@   loop 2 invariant notfound: !found && (forall k int :: 0 <= k && k <= rangeindex#2 ==> actual[k] != r)
+//@   loop 2 invariant bounds: 0 <= rangeindex && rangeindex < len(expected) && len(missing) >= 0 && (missing.arr == 0 || fresh(missing))
+//@   loop 2 invariant notfound: forall k int :: 0 <= k && k <= rangeindex#2 ==> actual[k] != expected[rangeindex]
 //@   loop 2 invariant keep.none: len(missing) == 0 ==> (forall j int :: 0 <= j && j < rangeindex ==> (exists k int :: 0 <= k && k < len(actual) && actual[k] == expected[j]))
 //@   loop 2 invariant keep.some: len(missing) > 0 ==> (exists j int :: 0 <= j && j < rangeindex && (forall k int :: 0 <= k && k < len(actual) ==> actual[k] != expected[j]))
 //@   modifies* nothing
